@@ -604,13 +604,14 @@ def r22_map_collect(text, base_line=0):
     """R22: `let V: Vec<T> = E.iter().map(|x| F).collect();` -> `let mut V: Vec<T> = Vec::new(); for __k in 0..E.len() { let x = &E[__k]; V.push(F); }`
     (what `iter().map().collect()` into a Vec does: push F(x) for each element in order)"""
     log = []
-    pat = re.compile(r"let\s+(\w+)\s*:\s*(Vec<[^=;]+>)\s*=\s*(\w+)\.iter\(\)\.map\(\|(\w+)\|\s*([^;|]+?)\)\.collect\(\);")
+    pat = re.compile(r"let\s+(\w+)\s*:\s*(Vec<[^=;]+>)\s*=\s*((?:self\s*\.\s*)?\w+)\s*\.iter\(\)\s*\.map\(\|((?:ref\s+)?\w+)\|\s*([^;|]+?)\)\s*\.collect\(\);")
     while True:
         m = pat.search(text)
         if not m:
             return text, log
         v, ty, e, x, f = m.groups()
-        new = "let mut %s: %s = Vec::new(); for __k in 0..%s.len() { let %s = &%s[__k]; %s.push(%s); }" % (v, ty.strip(), e, x, e, v, f.strip())
+        e = "".join(e.split())
+        new = "let mut %s: %s = Vec::new(); for __k in 0..%s.len() { let %s = &%s[__k]; %s.push(%s); }" % (v, ty.strip(), e, x, e, v, " ".join(f.split()))
         new += "\n" * m.group(0).count("\n")
         log.append("R22 line %d: `%s` -> `%s`" % (base_line + text.count("\n", 0, m.start()), " ".join(m.group(0).split()), new.strip()))
         text = text[:m.start()] + new + text[m.end():]
